@@ -85,7 +85,7 @@ def str_to_bytes(size_str):
 
 def flatten(list_of_seq):
     assert isinstance(list_of_seq, Iterable)
-    if type(list_of_seq[0]) in (list, tuple, np.ndarray):
+    if len(list_of_seq) > 0 and type(list_of_seq[0]) in (list, tuple, np.ndarray):
         return tuple(itertools.chain.from_iterable(list_of_seq))
     else:
         return list_of_seq
@@ -93,7 +93,7 @@ def flatten(list_of_seq):
 
 def full_flatten(list_of_seq):
     assert isinstance(list_of_seq, Iterable)
-    if type(list_of_seq[0]) in (list, tuple, np.ndarray):
+    if len(list_of_seq) > 0 and type(list_of_seq[0]) in (list, tuple, np.ndarray):
         return flatten(tuple(itertools.chain.from_iterable(list_of_seq)))
     else:
         return list_of_seq
